@@ -224,9 +224,32 @@ def model_search(chk):
 MANIFEST = {
     "level_claimed": {
         "category": "proof",
-        "text": "to be filled",
+        "text": ("Coq theorems over an executable model of the oracle prevote / vote / delegate / edit-params handlers and "
+                 "the period-end clearing, for ALL states, messages, heights and histories (no bound on length): "
+                 "C11_vote_accepted_iff (a vote is accepted iff signer is the validator or its current delegate, the "
+                 "validator is bonded, a stored prevote of that validator has height/VotePeriod - submit/VotePeriod = 1 "
+                 "in the code's uint64 arithmetic, the rates parse to whitelisted pairs and the stored hash equals "
+                 "H(salt, exact rate string, validator)); C11_prevote_consumed and C11_rejected_changes_nothing; over "
+                 "arbitrary histories with VotePeriod edits and staking changes: C11_no_reuse (no Prevote message backs two "
+                 "accepted votes), C11_vote_backed_by_prevote (each accepted vote is backed by an earlier Prevote message of "
+                 "the same validator carrying exactly that hash, one period earlier), C11_commit_reveal_binding (under "
+                 "hash injectivity the commitment fixes salt, spelling of the rates and validator: a copied commitment never "
+                 "backs a vote), C11_feeder_exclusive / C11_former_delegate_refused (a former delegate is refused from the next "
+                 "message on), C11_stale_prevotes_dropped / C11_prevote_lifetime (clearing rule = reveal window). The model is "
+                 "tied to /repo on every run by executing generated message histories on the real msg server, keeper and "
+                 "EndBlocker of a NibiruTestApp and comparing accept/reject, error class and the Prevotes / Votes / "
+                 "FeederDelegations stores and VotePeriod after every message; the proved-sound checker Pb (the property as a "
+                 "predicate on traces, which every model trace satisfies: C11_model_traces_satisfy_P) is evaluated on the "
+                 "implementation traces themselves."),
         "design_ref": "DESIGN.md §5 C11",
     },
-    "level_note": "",
-    "technique": "Coq proof (invariants by induction over message histories) + differential correspondence on msg-server traces",
+    "level_note": ("Trusted: Coq kernel + vm_compute; the Go driver (canonical ids, its own SHA-256 reference hash, error "
+                   "classification); tools/props/c11.py rendering. Entering as inputs, not modelled: the rate-string parser and "
+                   "whitelist membership (flags computed with the repo's parser/store before delivery), staking status of a "
+                   "validator, sudo membership of the EditOracleParams sender (C16), signature verification binding msg.Feeder "
+                   "to the signer (SDK ante; the driver checks GetSigners). Hypothesis of the binding theorem: SHA-256/20 is "
+                   "injective on salt:rates:valoper strings (the format is unambiguous because a parsable rate string cannot "
+                   "contain ':(' — checked by hand, and the generated hash tables are checked for collisions on every run). "
+                   "Tally, rewards, slashing at period end are C10/C12."),
+    "technique": "Coq proof (case analysis per handler + invariants by induction over message histories with a ghost origin field) + differential correspondence on msg-server traces",
 }
